@@ -64,21 +64,40 @@ func (s *subPub) Subscribe(iNotifier INotifier, nameSpace string, kind string, p
 	return nil
 }
 
+// register appends a subscription to the list of its key
+func (s *subPub) register(info subInfo) {
+	var slice []*subInfo
+	v, ok := s.keyToNotifier.Load(info.key)
+	if !ok {
+		slice = make([]*subInfo, 0, 1)
+	} else {
+		slice = v.([]*subInfo)
+	}
+	slice = append(slice, &info)
+	s.keyToNotifier.Store(info.key, slice)
+}
+
 // a goroutine to process subscription and unsubscription, start after you call NewSubPub
 func (s *subPub) process() {
 	for {
 		select {
 		case info := <-s.subInfoChan:
-			var slice []*subInfo
-			v, ok := s.keyToNotifier.Load(info.key)
-			if !ok {
-				slice = make([]*subInfo, 0, 1)
-			} else {
-				slice = v.([]*subInfo)
-			}
-			slice = append(slice, &info)
-			s.keyToNotifier.Store(info.key, slice)
+			s.register(info)
 		case info := <-s.unsubInfoChan:
+			// The waiter that sent this unsubscription was started after its
+			// subscription had been queued, so that subscription is either
+			// registered already or still waiting in subInfoChan. Register
+			// everything queued so far first: otherwise select may take the
+			// unsubscription before its own subscription and the notifier
+			// would stay registered for ever.
+			for queued := true; queued; {
+				select {
+				case sub := <-s.subInfoChan:
+					s.register(sub)
+				default:
+					queued = false
+				}
+			}
 			v, ok := s.keyToNotifier.Load(info.key)
 			if !ok {
 				continue
